@@ -1,0 +1,27 @@
+//go:build verif
+
+package core
+
+// VerifJobScript builds the cluster job script the way RemoteJobManager.sendJob
+// does, for a given template text, with fixed simple resources (threads and
+// memory in whole units, no special resources), so that the substitution of
+// values into the template can be compared with a model.
+func VerifJobScript(template string, metadataPath string,
+	shellCmd string, argv []string, envs map[string]string,
+	threads int, memGB int, fqname, shellName string) string {
+	mgr := &RemoteJobManager{
+		jobMode: "verif",
+		config: jobManagerConfig{
+			jobSettings: &JobManagerSettings{
+				ThreadsPerJob: 1,
+				MemGBPerJob:   1,
+				ExtraVmemGB:   0,
+			},
+			jobTemplate:      template,
+			threadingEnabled: true,
+		},
+	}
+	res := JobResources{Threads: float64(threads), MemGB: float64(memGB), VMemGB: float64(memGB)}
+	return mgr.jobScript(shellCmd, argv, envs,
+		NewMetadata(fqname, metadataPath), &res, fqname, shellName)
+}
